@@ -34,7 +34,15 @@ func pick64(r *rand.Rand) int64 {
 	return int64(r.Uint64())
 }
 
-func authKey(r *rand.Rand) ([]byte, string) { return keyLike(r, 256) }
+func authKey(r *rand.Rand) ([]byte, string) {
+	switch r.Intn(24) {
+	case 0:
+		return cornerKey("head"), "keyid-head-zero"
+	case 1:
+		return cornerKey("tail"), "keyid-tail-zero"
+	}
+	return keyLike(r, 256)
+}
 
 func c03(c *wk.Ctx) {
 	idx := 0
@@ -50,6 +58,16 @@ func c03(c *wk.Ctx) {
 		lens = append(lens, dense+1+lr.Intn(65537-dense))
 	}
 	lens = append(lens, 65535, 65536)
+	// what real traffic carries beyond the dense range: file parts of 512 KiB and 1 MiB inside their result objects,
+	// and the neighbourhood of the powers of two up to the transport's frame limit
+	for _, b := range []int{1 << 17, 1 << 19, 1 << 20, 1 << 21, 1 << 22} {
+		for _, d := range []int{-65, -64, -33, -32, -1, 0, 1, 28, 64} {
+			lens = append(lens, b+d)
+		}
+	}
+	if !c.Quick() {
+		lens = append(lens, 1<<23, 1<<24-64, 1<<24-33)
+	}
 	reps := c.Pick(2, 8)
 	for _, n := range lens {
 		for rep := 0; rep < reps; rep++ {
